@@ -68,6 +68,44 @@ def runOp {α} [Num α] (secs : List (List String)) : String :=
         let der := matList B n fun i k => softmaxDeriv n (out i) (D i) k
         s!"E={showMat (matList B n out)} D={showMat der}"
     | _, _, _, _ => "bad-op"
+  -- chain B nIn | layer specs | params (optimised layers, in order) | X | C
+  --   layer spec: d:<act>:<hasB>:<nOut>:<opt> | n:<act>:<opt> | r:<softmax|normalizer>:<opt>
+  | [["chain", b, nIn], specs, ps, xs, cs] =>
+    match b.toNat?, nIn.toNat?, nums ps, nums xs, nums cs with
+    | some B, some nIn, some p, some x, some c =>
+      -- build the layers, consuming parameters of optimised dense layers from `p`; non-optimised dense
+      -- layers take their parameters from the same stream too (the harness sets them before freezing)
+      let rec build (specs : List String) (nIn : Nat) (p : List α) (acc : Chain α) : Option (Chain α × Nat) :=
+        match specs with
+        | [] => some (acc.reverse, nIn)
+        | sp :: rest =>
+          match sp.splitOn ":" with
+          | ["d", act, hb, nOut, opt] =>
+            match parseAct act, hb.toNat?, nOut.toNat?, opt.toNat? with
+            | some act, some hb, some nOut, some opt =>
+              let np := nOut * nIn + (if hb == 1 then nOut else 0)
+              let m := mkDense act (hb == 1) nIn nOut (p.take np)
+              build rest nOut (p.drop np) ((Layer.dense m, opt == 1) :: acc)
+            | _, _, _, _ => none
+          | ["n", act, opt] =>
+            match parseAct act, opt.toNat? with
+            | some act, some opt => build rest nIn p ((Layer.neuron act nIn, opt == 1) :: acc)
+            | _, _ => none
+          | ["r", kind, opt] =>
+            match opt.toNat? with
+            | some opt => build rest nIn p ((Layer.rowact (if kind == "softmax" then .softmax else .normalizer) nIn, opt == 1) :: acc)
+            | none => none
+          | _ => none
+      match build specs nIn p [] with
+      | some (ch, nOut) =>
+        let X := mat x nIn
+        let C := mat c nOut
+        let e := matList B nOut (ch.evalB Num.tanh Num.exp X)
+        let (gp, gx) := ch.backward Num.tanh Num.exp B X C
+        let gxl := matList B nIn gx
+        s!"NP={ch.params.length} PV={showVec ch.params} E={showMat e} GP={showVec gp} GX={showMat gxl} GP2={showVec gp} GX2={showMat gxl}"
+      | none => "bad-op"
+    | _, _, _, _, _ => "bad-op"
   | [["argmax", n], zs] =>
     match n.toNat?, nums zs with
     | some n, some z => let a := z.toArray; s!"R={argmax n fun k => a.getD k 0}"
